@@ -424,6 +424,10 @@ func (h *H) monitor() {
 		if jr.inWF() && len(jr.Starts) == 1 && st != "Processing" {
 			h.viol("C16", "C16.processing", fmt.Sprintf("status %s while the worker function runs", st))
 		}
+		if jr.Batch != nil && jr.Batch.WaitRet > 0 && jr.Batch.AddRet > 0 && st != "Closed" && (len(jr.Ends) > 0 || jr.anyClose() || h.maybePurged(jr)) {
+			// (items whose status handle is known were started; once the batch's Wait has returned each of them reads Closed)
+			h.viol("C16", "C16.after-wait", fmt.Sprintf("status %s of a batch item after the batch's Wait returned", st))
+		}
 		if jr.waitRet > 0 && st != "Closed" {
 			h.viol("C16", "C16.after-wait", fmt.Sprintf("status %s after Wait returned", st))
 		}
@@ -633,8 +637,15 @@ func (h *H) Judge(x *vrt.Exec) ([]vrt.Violation, uint64) {
 		}
 		h.viol(h.CrashProp, h.CrashProp+".crash", msg+" @ "+x.CrashFrame)
 	}
+	if x.Livelock != "" {
+		// the execution was cut at the step cap with one library goroutine as the only thread able to move
+		h.viol("C03", "C03.livelock", x.Livelock)
+		if h.HangProp != "C03" && h.HangProp != "" {
+			h.viol(h.HangProp, h.HangProp+".livelock", x.Livelock)
+		}
+	}
 	// hangs: harness threads that are not finished when nothing can move
-	if !crashed {
+	if !crashed && x.Livelock == "" {
 		for _, b := range x.Blocked {
 			if b.Lib {
 				// library threads blocked on a lock / waitgroup / send can never be woken: internal deadlock
